@@ -1,6 +1,6 @@
 \* C30 leg A quick, planners "size" (index-size filter, threshold 3) and "vdown" (vertical-compaction downsample
 \* filter, raw and downsampled group): ranges 1/2/4 on the grid 0..4, <= 3 blocks of length <= 4 with index size 1..2,
-\* <= 1 no-compact mark; cases for the harness: layouts of <= 3 plain and <= 2 flagged blocks x 4 planner modes
+\* <= 1 no-compact mark; cases for the harness: layouts of <= 2 blocks (<= 1 marked) x 4 planner modes
 SPECIFICATION Spec
 CONSTANTS Ranges <- R124
           LoNeg = 0
@@ -13,7 +13,7 @@ CONSTANTS Ranges <- R124
           TombVals = {0}
           Sizes = {1, 2}
           Modes <- ModesFilters
-          CaseBlocks = 3
+          CaseBlocks = 2
           CaseFlagBlocks = 2
 INVARIANTS PlanSafe FixpointOK SortedInput
 PROPERTIES Variant
